@@ -51,4 +51,6 @@ let dispatch (fields : string list) : string option =
     Some (cmd_bw { sw_nodrop = true; sw_fullparams = false } goal prog depth)
   | ["bw_fullparams"; goal; prog; depth] ->
     Some (cmd_bw { sw_nodrop = false; sw_fullparams = true } goal prog depth)
+  | ["bw_both"; goal; prog; depth] ->      (* both repairs at once: a refutation can rest on F1 AND F2 *)
+    Some (cmd_bw { sw_nodrop = true; sw_fullparams = true } goal prog depth)
   | _ -> None
